@@ -537,7 +537,7 @@ pub fn make_data(d: &DataSpec, arch: &str) -> Result<(Vec<u8>, Vec<(usize, usize
         }
         "hex" => (gen::unhex(&d.hex), vec![]),
         "zeros" => (vec![0; d.len], vec![]),
-        _ => (gen::data("random", d.len, d.seed), vec![]),
+        other => (gen::data(other, d.len, d.seed), vec![]),
     })
 }
 
